@@ -137,7 +137,7 @@ pub struct Scen16 {
     pub schedule: Vec<usize>,
 }
 
-const N_FAIL_KINDS: u8 = 12;
+const N_FAIL_KINDS: u8 = 16;
 
 fn base_packet() -> Vec<u8> {
     // response with a question and three A answers; built by the harness codec
@@ -202,6 +202,23 @@ unsafe extern "C" fn cb16(ctx: *mut c_void, it: *const SectionIterator) -> bool 
                 0,
             );
         }
+        12 | 13 | 14 | 15 => {
+            let nm: Vec<u8> = match ctx.kind {
+                12 => vec![5, b'a', b'b'],
+                13 => vec![],
+                14 => vec![3, b'a', b'.', b'b', 0],
+                _ => {
+                    let mut v = Vec::new();
+                    for _ in 0..5 {
+                        v.push(63);
+                        v.extend(vec![b'z'; 63]);
+                    }
+                    v.push(0);
+                    v
+                }
+            };
+            ctx.rc = (t.set_raw_name)(it, &mut ctx.err, nm.as_ptr(), nm.len());
+        }
         100 => {
             // succeeding calls inside a callback
             (t.set_rr_ttl)(it, 77);
@@ -264,6 +281,25 @@ fn native_fail_text(kind: u8, bytes: &[u8]) -> Option<String> {
             it.set_raw_name(&[0xc0, 0x0c]).err().map(|e| e.to_string())
         }
         11 => dgen::raw_name_from_str(b"a..b", None).err().map(|e| e.to_string()),
+        12 | 13 | 14 | 15 => {
+            let nm: Vec<u8> = match kind {
+                12 => vec![5, b'a', b'b'],
+                13 => vec![],
+                14 => vec![3, b'a', b'.', b'b', 0],
+                _ => {
+                    let mut v = Vec::new();
+                    for _ in 0..5 {
+                        v.push(63);
+                        v.extend(vec![b'z'; 63]);
+                    }
+                    v.push(0);
+                    v
+                }
+            };
+            let mut p = parse()?;
+            let mut it = p.into_iter_answer()?;
+            it.set_raw_name(&nm).err().map(|e| e.to_string())
+        }
         _ => None,
     }
 }
@@ -312,7 +348,7 @@ unsafe fn table_fail(t: &FnTable, err: &mut *const CErr, kind: u8, bytes: &[u8])
             let tgt = b"\x00";
             (t.rename_with_raw_names)(&mut pp, err, tgt.as_ptr(), tgt.len(), src.as_ptr(), src.len(), false)
         }
-        8 | 9 | 10 | 11 => {
+        8..=15 => {
             let mut ctx = CbCtx {
                 table: t,
                 err: *err,
